@@ -1,9 +1,36 @@
-"""Run the registered checks against each kept seeded change: apply to /repo, run the quick checks
-of the given properties, undo. usage: run_seeded.py [name ...]"""
+"""Run all obligations once against each kept seeded change (applied to /repo, undone afterwards) and report
+which properties' checks would raise a VIOLATION (a failing obligation that is in that property's baseline)."""
 import json, os, subprocess, sys
+sys.path.insert(0, "/verif")
+os.chdir("/verif")
 names = sys.argv[1:] or sorted(os.listdir("/verif/seeded"))
-man = json.load(open("/verif/MANIFEST.json"))
-claimed = [c["property_id"] for c in man["checks"]]
+base = json.load(open("/verif/baseline_obligations.json"))
+code = r'''
+import sys, json
+sys.path.insert(0, "/verif")
+from pvc import run as R
+R.load_contracts()
+import properties_map as PM
+from pvc.contract import REGISTRY
+quals = [q for q, c in REGISTRY.items() if hasattr(c, "tags")]
+res = R.run_functions(quals, 40000, split=PM.SPLIT, want_smt=False)
+out = {"fail": [], "undecided": []}
+for r in res:
+    if r["unsupported"] or r["error"]:
+        out["undecided"].append([r["qual"], (r["unsupported"] or r["error"]).strip().splitlines()[-1]])
+    for o in r["results"]:
+        if o["status"] != "discharged" and not o["status"].startswith("known:"):
+            out["fail"].append([o["norm"], o["tags"], r["qual"], o["kind"]])
+from contracts import census
+from pvc.front import Source
+src = Source()
+for pid, spec in PM.PROPS.items():
+    for fn in spec.get("census", []):
+        for name, ok, detail in fn(src):
+            if not ok:
+                out["fail"].append([name, [pid], "census", "census"])
+print("JSON" + json.dumps(out))
+'''
 for n in names:
     d = "/verif/seeded/" + n
     meta = json.load(open(d + "/meta.json"))
@@ -11,14 +38,23 @@ for n in names:
     assert not st.strip(), "repo dirty: " + st
     subprocess.check_call("git -C /repo apply %s/patch.diff" % d, shell=True)
     try:
-        hits = {}
-        for pid in claimed:
-            r = subprocess.run("cd /verif && python3-vt check.py %s --tier quick" % pid, shell=True, capture_output=True, text=True)
-            v = [l for l in r.stdout.splitlines() if l.startswith("VIOLATION")]
-            if r.returncode != 0:
-                hits[pid] = (r.returncode, v[:3] or [l for l in r.stdout.splitlines() if "UNDECIDED" in l or "CHECKER" in l][:2])
-        print("%s (breaks %s): %s" % (n, meta.get("property"), "MISSED" if not any(rc == 1 for rc, _ in hits.values()) else "CAUGHT by " + ",".join(p for p, (rc, _) in hits.items() if rc == 1)))
-        for pid, (rc, v) in hits.items():
-            for l in v: print("    [%s exit %d] %s" % (pid, rc, l))
+        r = subprocess.run(["python3-vt", "-c", code], capture_output=True, text=True)
+        line = [l for l in r.stdout.splitlines() if l.startswith("JSON")]
+        if not line:
+            print(n, "RUN FAILED", r.stderr[-400:])
+            continue
+        out = json.loads(line[0][4:])
+        props = {}
+        for name, tags, q, kind in out["fail"]:
+            for pid, names_ in base.items():
+                universal = kind in ("frame", "no_exception", "emit", "commit", "requires", "wiring", "callback")
+                if (name in names_ or universal) and (pid in tags or (q == "census" and pid in tags)):
+                    props.setdefault(pid, set()).add(name)
+        verdict = "CAUGHT by " + ",".join(sorted(props)) if props else ("UNDECIDED only" if out["undecided"] else "MISSED")
+        print("%s (breaks %s): %s" % (n, meta.get("property"), verdict))
+        for pid in sorted(props):
+            print("    %s: %s" % (pid, ", ".join(sorted(props[pid]))[:300]))
+        for q, why in out["undecided"]:
+            print("    UNDECIDED %s: %s" % (q, why[:200]))
     finally:
         subprocess.check_call("git -C /repo checkout -- src", shell=True)
